@@ -39,8 +39,10 @@ type HandlerView interface {
 	// Done reports a finished handler: bytes consumed, bytes written without
 	// error, and whether it ended without any Read/Write error.
 	Done(token int) (done bool, consumed, written int64, clean bool)
-	// RespByte is response body byte number off of the handler for token.
+	// RespByte is response body byte number off of the handler for token;
+	// RespEqual compares a whole block.
 	RespByte(token int, off int64) byte
+	RespEqual(token int, off int64, p []byte) bool
 }
 
 // Violation is one refuting observation.
@@ -255,17 +257,32 @@ func (m *Model) openAtServer(s *StreamM) bool {
 		!s.ClientRst && !s.SrvFin && !s.SrvRst && m.H.CannotFinish(s.Token)
 }
 
+// notClosedAtServer: the server certainly still has the stream (it may be half
+// closed by us) whenever a frame sent now is processed.
+func (m *Model) notClosedAtServer(s *StreamM) bool {
+	return s.ValidSyn && s.Tainted == "" && m.ConnTainted == "" && !m.Dead() &&
+		!s.ClientRst && !s.SrvFin && !s.SrvRst && m.H.CannotFinish(s.Token)
+}
+
 // bounds of the server's receive windows when a frame sent now is processed.
+// Credits: a server gives window back for bytes its handlers consumed; it may
+// (and to avoid starving the session, should) also give back bytes it discards
+// when a stream ends, so for a stream that may already be closed at the server
+// everything sent on it may have been credited back.
 func (m *Model) inboundBounds(s *StreamM) (lbS, lbC, ubS, ubC int64) {
 	lbS = m.peerInit - s.Sent + m.H.Consumed(s.Token)
 	ubS = m.peerInit - s.CertAccepted + min64(m.H.ReadBudget(s.Token), s.Sent)
-	var cons, budget int64
+	var cons, credit int64
 	for _, x := range m.order {
 		cons += m.H.Consumed(x.Token)
-		budget += min64(m.H.ReadBudget(x.Token), x.Sent)
+		if m.notClosedAtServer(x) {
+			credit += min64(m.H.ReadBudget(x.Token), x.Sent)
+		} else {
+			credit += x.Sent
+		}
 	}
 	lbC = DefaultWindow - m.dataSent + cons
-	ubC = DefaultWindow - m.certAccept + budget
+	ubC = DefaultWindow - m.certAccept + credit
 	return
 }
 
@@ -445,6 +462,9 @@ func (m *Model) sendData(ev *Event) {
 	}
 	if closedShape != "" {
 		m.Respecting = false
+		if L > m.ViewConn() {
+			m.dirtyConn("data-beyond-advertised-session-window")
+		}
 		m.dataSent += L // upper bound of what the server may have debited
 		m.Obs["data_on_closed_"+closedShape]++
 		m.expects = append(m.expects, &expect{kind: exDataClosed, shape: closedShape, stream: id, seq: ev.Seq})
@@ -784,6 +804,9 @@ func (m *Model) recvData(ev *Event) {
 			L, s.ID, s.Recv, m.maxInit()+s.WUSent, m.maxInit(), s.WUSent)
 	}
 	for i, b := range ev.Data {
+		if m.H.RespEqual(s.Token, off, ev.Data) {
+			break
+		}
 		if b != m.H.RespByte(s.Token, off+int64(i)) {
 			m.viol(ev.Seq, "outbound:content-mismatch",
 				"stream %d: response body byte %d is %#x, the handler wrote %#x there", s.ID, off+int64(i), b, m.H.RespByte(s.Token, off+int64(i)))
@@ -845,13 +868,13 @@ func (m *Model) srvFin(ev *Event, s *StreamM) {
 	}
 	if s.Tainted == "" && m.ConnTainted == "" && !s.ClientRst && !s.SrvRst && s.ValidSyn {
 		s.FinWUChecked = true
-		switch {
-		case !s.ClientFin && s.WURecv != consumed:
+		// (WURecv <= bytes sent is checked whenever a WINDOW_UPDATE arrives)
+		if !s.ClientFin && s.WURecv < consumed {
 			m.viol(ev.Seq, "inbound:stream-window-not-replenished",
 				"stream %d: handler consumed %d bytes before it returned, stream WINDOW_UPDATEs received before its FIN sum to %d", s.ID, consumed, s.WURecv)
-		case s.WURecv > consumed:
-			m.viol(ev.Seq, "inbound:stream-window-over-replenished",
-				"stream %d: handler consumed %d bytes, stream WINDOW_UPDATEs sum to %d", s.ID, consumed, s.WURecv)
+		}
+		if s.WURecv == consumed {
+			m.Obs["stream_updates_equal_consumed"]++
 		}
 		m.Obs["stream_conservation_checked"]++
 	}
@@ -969,9 +992,19 @@ func (m *Model) Finish(f EndFacts) {
 	}
 	// quiescence: all handlers returned, every frame answered
 	if m.ConnTainted == "" {
-		if m.wu0Recv != consumedAll {
+		// consumed <= given back <= sent (the upper half is checked whenever a
+		// WINDOW_UPDATE arrives); bytes discarded with a closed stream may or
+		// may not be given back - if they are not, the stall check below
+		// decides whether the session is still usable
+		if m.wu0Recv < consumedAll {
 			m.viol(-1, "inbound:session-window-not-replenished",
-				"at quiescence the handlers had consumed %d body bytes in total but session WINDOW_UPDATEs sum to %d", consumedAll, m.wu0Recv)
+				"at quiescence the handlers had consumed %d body bytes in total but session WINDOW_UPDATEs sum to only %d", consumedAll, m.wu0Recv)
+		}
+		if m.wu0Recv == consumedAll {
+			m.Obs["session_updates_equal_consumed"]++
+		}
+		if m.wu0Recv == m.dataSent {
+			m.Obs["session_updates_equal_sent"]++
 		}
 		m.Obs["session_conservation_checked"]++
 		allClosed := true
